@@ -46,12 +46,14 @@ class Exec(EvalMixin, CallMixin):
         self.key = key
         self.con = contract
         cn, _, mn = key.rpartition(".")
-        self.cname = cname if cname is not None else cn
+        real = uni.class_alias.get(cn, cn)
+        self.cname = cname if cname is not None else real
+        self.kind_cname = cn
         if fnode is None:
             rel = contract.get("module") or uni.modules.get(cn)
             if rel is None:
                 raise extract.Missing("no module for " + key)
-            fnode = extract.module(rel).func(key if cn else mn)
+            fnode = extract.module(rel).func((real + "." + mn) if cn else mn)
         self.fn = fnode
         self.obls = []
         self.exits = []
@@ -116,7 +118,8 @@ class Exec(EvalMixin, CallMixin):
         params = [a.arg for a in fn.args.args]
         for a in fn.args.args:
             if a.arg == "self":
-                k = K("obj", self.cname) if self.cname in uni.obj_classes else K("opaque", self.cname)
+                kc = getattr(self, "kind_cname", self.cname)
+                k = K("obj", kc) if kc in uni.obj_classes else K("opaque", kc)
             elif a.arg in kinds_override:
                 k = kind_of_annotation(kinds_override[a.arg], uni)
             else:
@@ -129,7 +132,7 @@ class Exec(EvalMixin, CallMixin):
             if a.arg == "self" and is_ctor:
                 # a freshly allocated object: only its identity and class are known
                 st.assume(z3.And(is_VRef(sv.t), ref(sv.t) >= 0, ref(sv.t) < st.alloc))
-                st.assume(z3.Select(st.H("cls"), ref(sv.t)) == uni.class_id(self.cname))
+                st.assume(z3.Select(st.H("cls"), ref(sv.t)) == uni.class_id(getattr(self, "kind_cname", self.cname)))
             else:
                 assume_typed(st, sv.t, sv.k)
         for gname, gk in con.get("ghost_params", {}).items():
@@ -137,9 +140,14 @@ class Exec(EvalMixin, CallMixin):
             k = kind_of_annotation(gk, uni)
             st.env[gname] = SV(t, k)
             assume_typed(st, t, k)
-        entry_env = dict(st.env)
         self.entry = st.fork()
         self.entry.pc = st.pc
+        for pname in con.get("frozen_params", []):
+            # the function does not write what this parameter reaches (shown by its own frame obligations, all
+            # allowed write targets being fresh or disjoint): read it in the entry heap throughout
+            sv = st.env[pname]
+            st.env[pname] = SV(sv.t, sv.k, self.entry)
+        entry_env = dict(st.env)
         cx0 = Ctx(spec=True)
         for ax in uni.axioms:
             self.axioms.append(self.formula(ax, st, cx0, pol=-1))
@@ -184,8 +192,8 @@ class Exec(EvalMixin, CallMixin):
             s = ex.state
             if ex.kind == "raise":
                 src = raises.get(ex.exc)
-                if ex.exc in raises and src is None:
-                    continue        # "may raise": no condition stated
+                if (ex.exc in raises and src is None) or ex.exc in (con.get("raises_if") or {}):
+                    continue        # "may raise": no only-if condition stated
                 if src is None:
                     self.oblige("raises[%s]/unexpected" % ex.exc, s, z3.BoolVal(False), ex.line, kind="raises")
                 else:
@@ -201,6 +209,9 @@ class Exec(EvalMixin, CallMixin):
                     continue
                 c = self.formula(src, self.pre_with_pc(s), Ctx(spec=True), entry_env, pol=-1)
                 self.oblige("raises[%s]/if" % exc, s, z3.Not(c), ex.line, kind="raises")
+            for exc, src in (con.get("raises_if") or {}).items():
+                c = self.formula(src, self.pre_with_pc(s), Ctx(spec=True), entry_env, pol=-1)
+                self.oblige("raises_if[%s]/violation_is_rejected" % exc, s, z3.Not(c), ex.line, kind="raises")
             rk = kind_of_annotation(fn.returns, uni) if fn.returns is not None else ANY
             res = ex.value
             if res is not None and res.k == ANY and rk != ANY:
